@@ -603,6 +603,7 @@ pub fn isolation(tier: Tier, w: &Arc<World>) -> Scn {
         xspecs.push(XferSpec { client: c, peer: p, kind: if upload { Kind::Upload } else { Kind::Download }, content: data, path, conformant: true, dally: true, timeout_ratio: 1 });
         starts.push((p, 4000 * SEC + j as Ns * MS));
     }
+    let mut abandoned_from: Vec<std::net::SocketAddr> = vec![];
     if srv.single_port && d.chance("swarm.live_predecessor", 1, 3) {
         // an endpoint abandons an upload (timeout 1 s: its worker gives up about 6 s later) and at once
         // starts a download that it reads slowly, so the predecessor dies in the middle of it
@@ -620,7 +621,7 @@ pub fn isolation(tier: Tier, w: &Arc<World>) -> Scn {
         xb.think_ns = 450 * MS;
         xb.timeout_ns = 20 * SEC;
         let (pb, cb) = w.add_peer_on(Box::new(Reader::new(xb)), pa);
-        let _ = ca;
+        abandoned_from.push(ca);
         clients.push(ClientSpec { client: cb, peer: pb, upload: false, content: data.clone(), path: path.clone() });
         xspecs.push(XferSpec { client: cb, peer: pb, kind: Kind::Download, content: data, path, conformant: true, dally: true, timeout_ratio: 1 });
         starts.push((pa, 12 * MS));
@@ -662,7 +663,11 @@ pub fn isolation(tier: Tier, w: &Arc<World>) -> Scn {
     }
     set_faults(w, fc);
     w.add_monitor(Box::new(XferMon::new("C12", Rules { c01: true, c02: true, ..Default::default() }, xspecs, 0)));
-    w.add_monitor(Box::new(IsoMon::new(clients, intruders.clone(), srv.addr(), srv.single_port)));
+    let mut iso = IsoMon::new(clients, intruders.clone(), srv.addr(), srv.single_port);
+    // the server may get round to that upload's first block only after the endpoint has moved on
+    // (a busy single-port listener): the ACK it then sends is the answer to that endpoint's own DATA
+    iso.abandoned_upload_from = abandoned_from;
+    w.add_monitor(Box::new(iso));
     boot_server(w, &srv).expect("server config");
     for (p, at) in starts {
         w.start_peer_at(p, at);
